@@ -88,7 +88,86 @@ def _target_flow():
         returns=['tgt_arr', "tgt_arr['gene']", 'raised__'], ret=['Z', 'Z', 'B'])
 
 
+# compare_chrom_names: the two name sets and the test under which it raises (located with `ast`; the message building
+# between the test and the `raise` is f-string / repr code the translator does not read)
+def _rule_names():
+    fn = _func('cnvlib/antitarget.py', 'compare_chrom_names')
+    body = [s for s in fn.body if not (isinstance(s, ast.Expr) and isinstance(s.value, ast.Constant))]
+    if [type(s) for s in body] != [ast.Assign, ast.Assign, ast.If, ast.Return]:
+        raise ValueError('compare_chrom_names is no longer two assignments, an if and a return')
+    if [ast.unparse(s.targets[0]) for s in body[:2]] != ['a_chroms', 'b_chroms']:
+        raise ValueError('the two assignments are no longer a_chroms = ..; b_chroms = ..')
+    iff = body[2]
+    if iff.orelse or not isinstance(iff.body[-1], ast.Raise) or 'ValueError' not in ast.unparse(iff.body[-1]):
+        raise ValueError('the if no longer ends in raise ValueError, without else')
+    if any(isinstance(x, (ast.Return, ast.Yield)) for s in iff.body for x in ast.walk(s)) or \
+            any(isinstance(x, ast.Name) and isinstance(x.ctx, ast.Store) and x.id in ('a_chroms', 'b_chroms')
+                for s in iff.body for x in ast.walk(s)):
+        raise ValueError('the raising branch returns or rebinds the name sets')
+    if ast.unparse(body[3]) != 'return (a_chroms, b_chroms)':
+        raise ValueError('compare_chrom_names no longer returns a_chroms, b_chroms: %s' % ast.unparse(body[3]))
+    return ast.unparse(iff.test)
+
+
+def _names_spec():
+    try:
+        test, first, last = _rule_names(), 'a_chroms = ', 'b_chroms = '
+    except Exception as exc:   # noqa -- fail closed
+        test = 'a_chroms'
+        first = last = '<compare_chrom_names no longer has the expected shape: %s>' % exc
+    return dict(name='compare_chrom_names', coq='fn_chrom_names', py_params=['a_regions', 'b_regions'],
+                params=[('set(a_regions.chromosome.unique())', 'LS', 'a_names'),
+                        ('set(b_regions.chromosome.unique())', 'LS', 'b_names'),
+                        ('.isdisjoint', 'F:LS,LS>B', 'isdisjoint_fn')],
+                fragment=dict(first=first, last=last),
+                returns=[test, 'a_chroms', 'b_chroms'], ret=['B', 'LS', 'LS'])
+
+
+# guess_chromosome_regions, per chromosome of the targets: the row the dict display of GA.from_columns gives it -- start and
+# end are located with `ast` (the "chromosome" entry is the chromosome itself: drop_duplicates keeps first-occurrence order);
+# `endpoints` is the per-chromosome comprehension, its element read for this chromosome's sub-table
+def _rule_guess():
+    fn = _func('cnvlib/antitarget.py', 'guess_chromosome_regions')
+    body = [s for s in fn.body if not (isinstance(s, ast.Expr) and isinstance(s.value, ast.Constant))]
+    if [type(s) for s in body] != [ast.Assign, ast.Assign, ast.Return] or ast.unparse(body[2]) != 'return whole_chroms':
+        raise ValueError('guess_chromosome_regions is no longer endpoints = ..; whole_chroms = ..; return whole_chroms')
+    e = body[0]
+    if not (ast.unparse(e.targets[0]) == 'endpoints' and isinstance(e.value, ast.ListComp) and len(e.value.generators) == 1
+            and ast.unparse(e.value.generators[0].iter) == 'targets.by_chromosome()'
+            and ast.unparse(e.value.generators[0].target) == '(_c, subarr)' and not e.value.generators[0].ifs):
+        raise ValueError('endpoints is no longer [<E> for _c, subarr in targets.by_chromosome()]')
+    w = body[1]
+    if not (isinstance(w.value, ast.Call) and ast.unparse(w.value.func) == 'GA.from_columns' and len(w.value.args) == 1
+            and not w.value.keywords and isinstance(w.value.args[0], ast.Dict)):
+        raise ValueError('whole_chroms is no longer GA.from_columns({...})')
+    d = w.value.args[0]
+    keys = [k.value if isinstance(k, ast.Constant) else None for k in d.keys]
+    if keys != ['chromosome', 'start', 'end']:
+        raise ValueError('the columns are no longer chromosome, start, end: %s' % keys)
+    vals = dict(zip(keys, d.values))
+    if ast.unparse(vals['chromosome']) != 'targets.chromosome.drop_duplicates()':
+        raise ValueError('the chromosome column is no longer targets.chromosome.drop_duplicates()')
+    def per_chrom(v):          # the list `endpoints` gives each chromosome its own element; a scalar is broadcast
+        return ast.unparse(e.value.elt) if ast.unparse(v) == 'endpoints' else ast.unparse(v)
+    return per_chrom(vals['start']), per_chrom(vals['end'])
+
+
+def _guess_spec():
+    try:
+        (start, end), first = _rule_guess(), 'endpoints = '
+    except Exception as exc:   # noqa -- fail closed
+        start = end = 'telomere_size'
+        first = '<guess_chromosome_regions no longer has the expected shape: %s>' % exc
+    return dict(name='guess_chromosome_regions', coq='fn_guess_row', py_params=['targets', 'telomere_size'],
+                params=[('telomere_size', 'Z'), ('subarr.end.iat[-1]', 'Z', 'last_end'),
+                        ('[subarr.end.iat[-1] for _c, subarr in targets.by_chromosome()]', 'Z', 'endpoints_id')],
+                fragment=dict(first=first, last=first),
+                returns=[start, end], ret=['Z', 'Z'])
+
+
 MODULES = {
+    'FnChromNames': ('cnvlib/antitarget.py', [_names_spec()]),
+    'FnGuessRegions': ('cnvlib/antitarget.py', [_guess_spec()]),
     'FnTargetFlow': ('cnvlib/target.py', [_target_flow()]),
     'FnAntiFlow': ('cnvlib/antitarget.py', [_ANTI_FLOW]),
     'FnAntiDo': ('cnvlib/antitarget.py', [_ANTI_DO]),
